@@ -7,7 +7,7 @@ jobs=3
 if "-j" in args:
     i=args.index("-j"); jobs=int(args[i+1]); del args[i:i+2]
 pat=args[0] if args else ""
-seeds=sorted(d for d in glob.glob("/verif/seeded/C*-*")+glob.glob("/verif/seeded/regress/R*") if pat in d)
+seeds=sorted(d for d in glob.glob("/verif/seeded/C*-*")+glob.glob("/verif/seeded/regress/[RS]*") if pat in d)
 def run(d):
     meta=json.load(open(os.path.join(d,"meta.json")))
     det=meta.get("detected_by",{})
